@@ -372,6 +372,9 @@ func (r *Run) visit(g *Goroutine, fr *frame, ci *cinstr) kont {
 			if p == nil {
 				r.panicRuntime(g, "invalid memory address or nil pointer dereference")
 			}
+			if r.race != nil && !fr.info.noRace {
+				r.memEvent(g, p, false)
+			}
 			fr.regs[ci.dst] = copyVal(*p)
 		case token.ARROW:
 			ch, _ := x.(*Chan)
@@ -389,6 +392,9 @@ func (r *Run) visit(g *Goroutine, fr *frame, ci *cinstr) kont {
 		p := fr.get(&ci.args[0]).(*Value)
 		if p == nil {
 			r.panicRuntime(g, "invalid memory address or nil pointer dereference")
+		}
+		if r.race != nil && !fr.info.noRace {
+			r.memEvent(g, p, true)
 		}
 		storeInto(p, fr.get(&ci.args[1]))
 
@@ -557,6 +563,9 @@ func (r *Run) visit(g *Goroutine, fr *frame, ci *cinstr) kont {
 		if m == nil {
 			panic(targetPanic{v: r.runtimeError("assignment to entry in nil map")})
 		}
+		if r.race != nil && !fr.info.noRace {
+			r.memEvent(g, m, true)
+		}
 		r.mapSet(g, m, fr.get(&ci.args[1]), copyVal(fr.get(&ci.args[2])))
 
 	case *ssa.Lookup:
@@ -567,6 +576,9 @@ func (r *Run) visit(g *Goroutine, fr *frame, ci *cinstr) kont {
 			i := r.checkIndex(g, k, ins.Index.Type(), len(x))
 			fr.regs[ci.dst] = uint64(x[i])
 		case *Map:
+			if r.race != nil && !fr.info.noRace && x != nil {
+				r.memEvent(g, x, false)
+			}
 			v, ok := r.mapGet(g, x, k)
 			if !ok {
 				v = zero(ci.typ)
